@@ -148,6 +148,12 @@ func runResync(env *h.Env, srcTree *h.Tree, c *histCase, step int, diffNone bool
 			o.reqPaths = append(o.reqPaths, o.announced[r.ID].Path)
 		}
 	}
+	o.classify(c.Filter)
+	return o, nil
+}
+
+// classify derives changed/unchanged/may/removedTop from o.announced and o.before.
+func (o *resyncObs) classify(filter int) {
 	for _, w := range expectWalk(o.before, func(string) bool { return true }) {
 		o.destStat[w.Path] = w.Stat
 	}
@@ -159,7 +165,7 @@ func runResync(env *h.Env, srcTree *h.Tree, c *histCase, step int, diffNone bool
 		}
 		// the receiver compares the stat as rewritten by its filter
 		fst := st
-		if flt := ownerFilter(c.Filter); flt != nil {
+		if flt := ownerFilter(filter); flt != nil {
 			fst = st.Clone()
 			flt(fst.Path, fst)
 		}
@@ -206,7 +212,6 @@ func runResync(env *h.Env, srcTree *h.Tree, c *histCase, step int, diffNone bool
 		}
 	}
 	sort.Strings(o.removedTop)
-	return o, nil
 }
 
 func sortedKeys(m map[string]bool) []string {
